@@ -32,7 +32,7 @@ How the generated search stays quiet (every exclusion is counted in the evidence
   * a violation is reported only if it is reproduced by two reformulations of the same problem (reversed phase order; all amounts
     scaled by 1.7 + rotated phase order) and by two neighbouring problems (relative uncertainties 1.3 % wider / narrower): sporadic
     solver failures and razor-edge infeasible "optima" do not survive that, a wrong set-up does (`not_reproduced_*` events);
-  * (d) is asserted per model as "at least 3 and more than 60 % of the reported intervals are inverted or miss their value";
+  * (d) is asserted per model as "at least 3 and at least 90 % of the reported proper intervals are inverted or miss their value";
     single intervals are counted (`known_F3:*`); (c) tolerates a wrong-signed transfer below 0.1 % of the largest transfer (`known_F4:*`).
 """
 import os, re, math
@@ -65,7 +65,7 @@ LEVEL_TEXT = ("Exploration: thousands of generated inverse problems per run; eac
               "of the pinned tree are excluded by detection and counted.")
 FLOORS = {"quick": 150, "thorough": 1500}
 SHARDS = {"quick": 4, "thorough": 4}
-BUDGET = {"quick": 250, "thorough": 700, "replay": 1}
+BUDGET = {"quick": 250, "thorough": 2800, "replay": 1}
 
 SKIP_EL = ("H", "O", "e")
 
@@ -441,7 +441,7 @@ def verify(case, comps, numbers, heads, rows, printed, summary, toler, chem, ctx
             # (independent check: HiGHS on the identical LP); a reported interval may then miss the model's own value or even be
             # inverted.  Single items are therefore counted, and the clause is asserted per model in its robust form: the ranges
             # of a model are wrong if MOST of its intervals are inverted / miss their value (what a wrong range computation does).
-            n_items = n_bad = 0
+            n_items = n_bad = n_nd = 0
             first_bad = None
             for what, v, lo, hi in items:
                 if max(abs(v), abs(lo), abs(hi)) >= 0.999 * rmax:
@@ -459,6 +459,8 @@ def verify(case, comps, numbers, heads, rows, printed, summary, toler, chem, ctx
                 n_items += 1
                 inverted = lo > hi + s
                 outside = v < lo - s or v > hi + s
+                if inverted or outside or hi - lo > s:
+                    n_nd += 1                   # an interval that is not a single point
                 if inverted or outside:
                     n_bad += 1
                     if first_bad is None:
@@ -467,9 +469,10 @@ def verify(case, comps, numbers, heads, rows, printed, summary, toler, chem, ctx
                         fail("range_order" if inverted else "range", "%s: %s = %r lies outside its reported range [%r, %r]" % (tag, what, v, lo, hi))
                     ctx.event("known_F3:interval_inverted" if inverted else "known_F3:value_outside_reported_range")
             if n_bad:
-                ctx.event("range_bad_items=%dof%d" % (n_bad, n_items))
-            if n_bad >= 3 and n_bad > 0.6 * n_items:
-                fail("range_majority", "%s: %d of the %d reported ranges are inverted or miss the reported value, e.g. %s" % (tag, n_bad, n_items, first_bad))
+                ctx.event("range_bad_intervals=%dof%d" % (n_bad, n_nd))
+            if n_bad >= 3 and n_bad >= 0.9 * n_nd:
+                fail("range_majority", "%s: %d of the %d reported proper intervals are inverted or miss the reported value, e.g. %s" % (
+                    tag, n_bad, n_nd, first_bad))
         # ---- (a) necessary feasibility of every element balance (13-digit values, independent totals and stoichiometry)
         for e in E:
             vrows = chem.rows_of(e)
